@@ -1257,8 +1257,9 @@ def build_cells(bases, nsites, rng_for):
                     order.append(by_base[nm].pop())
         chosen = []
         used = set()
-        rounds = 0
-        while len(chosen) < nsites and rounds < 6:
+        progress = True
+        while len(chosen) < nsites and progress:
+            progress = False
             for base, pk, where, vs in order:
                 avail = [v for v in vs if (base.name, pk, v[0]) not in used]
                 if not avail:
@@ -1271,9 +1272,9 @@ def build_cells(bases, nsites, rng_for):
                 m.rule, m.context, m.base, m.mut, m.variant, m.where = rule, context, base, v[1], v[0], where
                 m.obs = None
                 chosen.append(m)
+                progress = True
                 if len(chosen) >= nsites:
                     break
-            rounds += 1
         cells[(rule, context)] = chosen
 
     for rule, fn in EXPR_RULES:
@@ -1345,11 +1346,14 @@ def control_mutants(bases):
 def make_bases(ctx):
     bases = [Base(n, t) for n, t in HAND_BASES]
     bases.append(Base("b6", returns_base(False)))
+    if os.environ.get("NLV_C05_ALL"):
+        bases.append(Base("b7", returns_base(True)))
+        return bases
     if not ctx.quick():
         bases.append(Base("b7", returns_base(True)))
         from .. import sweep
         want = 24
-        batch = sweep.gen_batch(ctx, want, None, 1.0, label="c05base")
+        batch = sweep.gen_batch(ctx, want, {"exit_codes": False}, 1.0, label="c05base")
         for i, prog, exp in batch:
             text, extra, nholes = gen_template(prog)
             if nholes >= 10:
@@ -1359,7 +1363,9 @@ def make_bases(ctx):
 
 def run(ctx):
     fl = build.get("plain")
-    nsites = ctx.n(3, 10)
+    nsites = ctx.n(3, 12)
+    if os.environ.get("NLV_C05_ALL"):        # development: every candidate site (used to generate findings/C05/known.json)
+        nsites = 10 ** 9
     bases = make_bases(ctx)
     with Scratch("c05") as sc:
         # ---- controls: everything the mutants are derived from is accepted, built and run --------------------
@@ -1478,7 +1484,7 @@ def run(ctx):
                 for m in mutants:
                     ln, new, old = mutated_line(m.base, m.mut)
                     json.dump({"rule": m.rule, "context": m.context, "base": m.base.name, "variant": m.variant, "where": m.where,
-                               "line": ln, "new": new, "old": old,
+                               "mut": m.mut, "kind": m.base.kind, "line": ln, "new": new, "old": old,
                                "obs": [{"tool": o.tool, "cls": o.cls, "stage": o.stage, "rc": o.rc, "sig": o.sig, "art": o.artifact,
                                         "marker": o.marker, "diag": o.diag[:3], "err": o.err[-600:]} for o in m.obs]}, f)
                     f.write("\n")
